@@ -203,6 +203,21 @@ def run(tier, seed):
         path = os.path.join(tmp, "in%d.raw" % s)
         open(path, "wb").write(bytes(data))
         inputs.append({"s": s, "kind": kind, "path": path, "data": bytes(data), "cd": cd, "stave": stave})
+    # a stave whose messages do NOT reach the collector in memory order: a lane the IHW does not list draws a message at each of its words,
+    # the frame's own message ([E74], at the frame START) is sent when the frame closes -- later, with a smaller offset; two frames with
+    # different lane faults.  Read back under --mute-errors and without writing statistics again (seed C15-H)
+    from . import c13
+    base = [0x20 + l for l in rng.choice(c13.IB_GROUPS)]
+    plans = [c13.plan_frame(rng, 0, base, k, rng.randrange(256)) for k in ("chip-id-wrong", "chip-count", "legal")]
+    ulink = c13.PlannedLink(rng, rng.randrange(12), 0, 5, rng.choice([0, 2]), plans, 0, omit=base[1])
+    upk = []
+    while ulink.k < len(plans):
+        upk += ulink.hbf(nslots=min(len(plans) - ulink.k, 3))
+    ucd, _r = c06.place([upk], [(0, k) for k in range(len(upk))])
+    udata = b"".join(r + p for _o, r, p in ucd)
+    upath = os.path.join(tmp, "in_unordered.raw")
+    open(upath, "wb").write(udata)
+    inputs.append({"s": ninputs + 1, "kind": "stave-unordered-errors", "path": upath, "data": udata, "cd": ucd, "stave": True})
     # a capture that ends inside its first RDH (8..63 bytes): nothing is visited and nothing is reported, yet the statistics (RDH
     # version, all counters zero) are written and must be compared like any others
     cutn = rng.choice([8, 9, 40, 63])
@@ -215,9 +230,11 @@ def run(tier, seed):
     jobs = []
     for inp in inputs:
         modes = [("sanity",), ("all",), ("all", "its")] + ([("all", "its-stave")] if inp["stave"] else [("sanity", "its")])
-        for mode in (modes if deep else rng.sample(modes, 2)):
+        unordered = inp["kind"] == "stave-unordered-errors"
+        for mode in ([("all", "its-stave")] if unordered else (modes if deep else rng.sample(modes, 2))):
             for fmt in ("json", "toml"):
-                jobs.append({"inp": inp, "mode": mode, "fmt": fmt, "mute": rng.random() < 0.4, "src": rng.choice(["file", "pipe"]), "id": len(jobs)})
+                jobs.append({"inp": inp, "mode": mode, "fmt": fmt, "mute": (fmt == "json") if unordered else rng.random() < 0.4,
+                             "src": rng.choice(["file", "pipe"]), "id": len(jobs)})
 
     def base_args(j):
         return ["check"] + list(j["mode"]) + (["-m"] if j["mute"] else [])
